@@ -114,7 +114,11 @@ def load_module(name: str) -> ModuleInfo:
       mod = n.module or ""
       for a in n.names:
         local = a.asname or a.name
-        if n.level >= 1:
+        if mod == "mujoco_warp._src" or mod == "mujoco_warp":
+          imports[local] = ("module", a.name)
+        elif mod.startswith("mujoco_warp._src."):
+          imports[local] = ("symbol", mod.split(".")[-1], a.name)
+        elif n.level >= 1:
           if mod == "":
             imports[local] = ("module", a.name)  # from . import math
           else:
